@@ -127,6 +127,8 @@ pub enum Ev {
     Note(String),
 }
 
+pub const MAX_LOG_EVENTS: usize = 120_000;
+
 #[derive(Default)]
 pub struct World {
     pub now: u64,
@@ -150,7 +152,11 @@ pub struct World {
 impl World {
     pub fn ev(&mut self, e: Ev) -> u64 {
         self.seq += 1;
-        self.log.push((self.seq, self.now, e));
+        // a run that never comes to rest (livelock) must not eat the machine: beyond this many
+        // events only the sequence number advances (such a run is a violation by itself)
+        if self.log.len() < MAX_LOG_EVENTS {
+            self.log.push((self.seq, self.now, e));
+        }
         self.seq
     }
     pub fn log_hash(&self) -> u64 {
